@@ -39,6 +39,10 @@ func (g *Generator) generateSpecificEnum(enumType string, enumValues []enum) []j
 	cases := make([]jen.Code, len(enumValues))
 	for i, id := range enumValues {
 		name := goify(id.Name, true)
+		if name == typeID {
+			// constructor named like its type, same renaming as for structs
+			name = goify(id.Name+"Obj", true)
+		}
 
 		opc[i] = jen.Id(name).Id(typeID).Op("=").Id(fmt.Sprintf("%#v", id.CRC))
 		cases[i] = jen.Case(jen.Id(typeID).Call(jen.Id(fmt.Sprintf("%#v", id.CRC)))).Block(jen.Return(jen.Lit(id.Name)))
